@@ -3,3 +3,4 @@ pub mod round;
 pub mod dur;
 pub mod date;
 pub mod grammar;
+pub mod relround;
